@@ -216,7 +216,7 @@ def rule_import_removal_owner(ctx, rep):
               f"{why}: deciding by name/module instead of by the gathered node pairs removes a *used* import that merely looks like an unused one "
               "(e.g. module-level `import json` used, function-level `import json` unused)")
     giv_users = [
-        fn for fn in ctx.prog.functions.values()
+        fn for fn in ctx.prog.live_functions()
         if any(isinstance(c, ast.Call) and last_attr(c.func) == "RemoveUnusedImportsTransformer" for c in walk_no_nested(fn.node))
     ]
     for fn in giv_users:
@@ -226,7 +226,7 @@ def rule_import_removal_owner(ctx, rep):
                   "RemoveUnusedImportsTransformer is constructed from something other than libcst's GatherUnusedImportsVisitor results")
     # the libcst-checked removal API is what everybody else uses
     users = 0
-    for fn in ctx.prog.functions.values():
+    for fn in ctx.prog.live_functions():
         for c in walk_no_nested(fn.node):
             if isinstance(c, ast.Call) and last_attr(c.func) in ("remove_unused_import", "remove_unused_import_by_node"):
                 users += 1
@@ -246,7 +246,7 @@ def rule_nodetype(ctx, rep, prop_rule="R-NODETYPE"):
     )
     COMPOPS = {"Equal", "NotEqual", "LessThan", "GreaterThan", "LessThanEqual", "GreaterThanEqual", "In", "NotIn", "Is", "IsNot"}
     n = 0
-    for fn in ctx.prog.functions.values():
+    for fn in ctx.prog.live_functions():
         for c in walk_no_nested(fn.node):
             if isinstance(c, ast.Call) and last_attr(c.func) == "with_changes":
                 op = next((k.value for k in c.keywords if k.arg == "operator"), None)
